@@ -468,14 +468,25 @@ theorem duplicate_in_block_rejected (c : Ctx) (b : Block) (hc : c.dupCheck = tru
     (hd : hasDup (blockHashes b.txs) = true) : verifyTxs c b = some .txReplay := by
   unfold verifyTxs; simp [hc, hd]
 
+/-- **box_sub_tx_inside_window**: in an accepted block the transactions INSIDE every box are inside the lifetime
+    window of the block time as well (`checkBoxTx` passes the block time on, not the box's expiration). -/
+theorem box_sub_tx_inside_window (c : Ctx) (b : Block) (h : verifyTxs c b = none) :
+    ∀ tx ∈ b.txs, ∀ e ∈ tx.subExps, e < 18446744073709551616 → b.header.time ≤ e ∧ e ≤ b.header.time + 1800 := by
+  intro tx htx
+  exact txOk_sub_bounds ((verifyTxs_none h).2 tx htx)
+
+/-- witness: a box inside the window whose sub-tx expires 1801 s after the block time is rejected -/
+example : accept Witness.ctx { Witness.honest with txs := [⟨2, 20000010, true, [5], [20000005 + 1801]⟩] } = .reject .txBody := by
+  decide
+
 /-- **duplicate_tx_in_block_accepted** (witness, code BEFORE fix 828f704 = `dupCheck := false`): nothing in the
     check sequence looked for the same transaction twice INSIDE one block (`ExistTxs` only walks the
     ancestors); when re-execution of such a block succeeded — it did on the real engine, oracle
     `c02/accepted-invalid/tx-duplicate-in-block` — the block was accepted.  The current code rejects it. -/
 theorem duplicate_tx_in_block_accepted :
-    let b : Block := { Witness.honest with txs := [⟨1, 20000010, true, []⟩, ⟨1, 20000010, true, []⟩] }
+    let b : Block := { Witness.honest with txs := [⟨1, 20000010, true, [], []⟩, ⟨1, 20000010, true, [], []⟩] }
     accept { Witness.ctx with dupCheck := false } b = .ok ∧ accept Witness.ctx b = .reject .txReplay ∧
-    accept Witness.ctx { Witness.honest with txs := [⟨1, 20000010, true, []⟩, ⟨2, 20000010, true, [5, 1]⟩] } = .reject .txReplay := by
+    accept Witness.ctx { Witness.honest with txs := [⟨1, 20000010, true, [], []⟩, ⟨2, 20000010, true, [5, 1], [20000010, 20000010]⟩] } = .reject .txReplay := by
   decide
 
 /-- the scratch account manager IS touched by a rejected block that reaches re-execution (the only
